@@ -69,6 +69,30 @@ fn c13_valid(src: &mut Src, st: &mut Stats) -> PResult {
                     2 => Section::NameServers,
                     _ => Section::Additional,
                 };
+                // second time round: first fill the packet with 3.8 kB TXT records until one is refused
+                // (8192-byte limit); the refused insertion must leave nothing behind
+                let mut d = d;
+                if src.chance(3) {
+                    let big = format!("big.example. 1 IN TXT \"{}\"", "a".repeat(3800));
+                    let mut refused = false;
+                    for _ in 0..4 {
+                        match catch(|| pp.insert_rr_from_string(section, &big).map_err(|e| e.to_string())) {
+                            Err(pm) => fail!(format!("C13 insert-panic {}", panic_sig(&pm)), "big TXT: {}", pm),
+                            Ok(Ok(())) => {}
+                            Ok(Err(_)) => {
+                                refused = true;
+                                break;
+                            }
+                        }
+                    }
+                    ensure!(refused, "C13 insert-beyond-8192-accepted", "four 3.8 kB TXT records were inserted into {}", hex_abbrev(&bytes));
+                    let nb0 = pp.packet.clone().unwrap_or_default();
+                    d = match refdec::decode_strict(&nb0) {
+                        Some(x) => x,
+                        None => fail!("C13 packet-not-well-formed-after-refused-insert", "a 3.8 kB TXT record was refused for size; the packet is now {}", hex_abbrev(&nb0)),
+                    };
+                    st.class("insert-after-refused-insert");
+                }
                 let plain_len = d.msg.to_wire_plain().len();
                 let r = catch(|| pp.insert_rr_from_string(section, &tc.text).map_err(|e| e.to_string()));
                 match r {
@@ -231,6 +255,12 @@ fn c13_arbitrary(src: &mut Src, st: &mut Stats) -> PResult {
 
 fn c13_case(data: &[u8], st: &mut Stats) -> PResult {
     let mut src = Src::new(data);
+    crate::history::case(&mut src, st, 6, c13_body)
+}
+
+fn c13_body(src: &mut Src, st: &mut Stats) -> PResult {
+    let mut src = src.fork();
+    crate::history::fire_if_armed(&crate::gens::golden_packets()[0]);
     match src.weighted(&[6, 4, 3]) {
         0 => c13_valid(&mut src, st),
         1 => c13_damaged(&mut src, st),
@@ -276,7 +306,7 @@ fn c13_regressions() -> Vec<(&'static str, String, Option<Record>)> {
 pub fn check_c13(ctx: &Ctx, known: &KnownFindings) -> Report {
     let mut rep = Report::new("C13");
     let ks = known_sigs(known, "C13");
-    rep.rule = "three streams. valid: grammar-derived texts for the nine types (LDH/underscore names incl. 62-byte labels and maximal 253-byte names, with/without trailing dot, root owner; TTL 0/1/2^31/2^32-1; keywords in three cases; 1-3 blanks/tabs, leading/trailing blanks; A with leading zeros; AAAA compressed/full/uppercase; TXT literal + \\DDD escapes for any byte, lengths 1/254/255/256/510/511/3825; MX 0/65535; SOA with blanks/newlines in the parentheses; DS boundary numbers, 1..64 digest bytes, mixed-case hex) => RR::from_string Ok, bytes == reference RFC 1035 encoding, rdata() == rdata, and insertion into answer/authority/additional of a generated accepted response leaves an accepted packet whose last record of that section is the expected one. damaged: one grammar-excluded change (21 kinds) => Err. arbitrary: random Unicode/ASCII/token soup => no panic, and anything accepted decodes as exactly one well-formed class-IN record of one of the nine types with type-correct data. Non-trivial: valid text with >= 1 boundary feature, any damaged text, any accepted arbitrary text; distinct = hash of text.".into();
+    rep.rule = "three streams. valid: grammar-derived texts for the nine types (LDH/underscore names incl. 62-byte labels and maximal 253-byte names, with/without trailing dot, root owner; TTL 0/1/2^31/2^32-1; keywords in three cases; 1-3 blanks/tabs, leading/trailing blanks; A with leading zeros; AAAA compressed/full/uppercase; TXT literal + \\DDD escapes for any byte, lengths 1/254/255/256/510/511/3825; MX 0/65535; SOA with blanks/newlines in the parentheses; DS boundary numbers, 1..64 digest bytes, mixed-case hex) => RR::from_string Ok, bytes == reference RFC 1035 encoding, rdata() == rdata, and insertion into answer/authority/additional of a generated accepted response leaves an accepted packet whose last record of that section is the expected one (also after further insertions, and after an insertion that was refused at the 8192-byte limit). damaged: one grammar-excluded change (21 kinds) => Err. arbitrary: random Unicode/ASCII/token soup => no panic, and anything accepted decodes as exactly one well-formed class-IN record of one of the nine types with type-correct data. Non-trivial: valid text with >= 1 boundary feature, any damaged text, any accepted arbitrary text; distinct = hash of text.".into();
     rep.assumptions = vec!["'valid' texts stay inside the unambiguous core of the grammar: no all-numeric owner names, TXT <= 3825 bytes, host names of wire length <= 253 with labels <= 62".into()];
     for (name, text, want) in c13_regressions() {
         let r = catch(|| -> PResult {
@@ -305,6 +335,7 @@ pub fn check_c13(ctx: &Ctx, known: &KnownFindings) -> Report {
     }
     req.push("inserted".into());
     req.push("inserted-again".into());
+    req.push("insert-after-refused-insert".into());
     req.push("arbitrary".into());
     req.push("arbitrary:accepted".into());
     rep.required.extend(req);
@@ -469,6 +500,12 @@ fn zones() -> Vec<Option<Name>> {
 
 fn c14_case(data: &[u8], st: &mut Stats) -> PResult {
     let mut src = Src::new(data);
+    crate::history::case(&mut src, st, 6, c14_body)
+}
+
+fn c14_body(src: &mut Src, st: &mut Stats) -> PResult {
+    let mut src = src.fork();
+    crate::history::fire_if_armed(&crate::gens::golden_packets()[0]);
     let zs = zones();
     let zone = match src.below(6) {
         0..=3 => zs[src.below(4)].clone(),
